@@ -730,6 +730,8 @@ JudgeFile(tr, T, ev) ==
     \* C01: what the robot executes is the file; read as the 8-bit text the format prescribes it holds the very records the
     \* replay clauses were evaluated on
     Cl("C01.file", ev.op \in {"save", "exit"} /\ a.ext = "gwl" /\ a.haspath /\ ev.out = "ok" /\ lines # <<>>, ev.file.lines = lines),
+    \* an extension in other letter cases (".GWL"): whether it is taken is not pinned; if it is, the file that was named holds the records
+    Cl("C17.othercase", ev.op = "save" /\ a.ext = "case" /\ ev.out = "ok", ev.file.exists /\ ev.file.bytes = FileBytes(lines)),
     Cl("C17.noext", ev.op = "save" /\ a.ext = "none", ev.out # "ok" /\ ~ev.file.exists),
     Cl("C17.nopath", ev.op = "exit" /\ ~a.haspath, ev.out = "ok" /\ ~ev.file.exists),
     Cl("C17.enter", ev.op \in {"enter", "clear"}, ev.out = "ok" /\ ev.wlen = 0),
